@@ -170,24 +170,15 @@ func (c *Ctx) ruleScannerIsolation() {
 	} else {
 		r.Bad("C09-SCANNER-ISOLATION", "no repositioning", "SetCurrentIndex is called: a suspended scanner can be moved", "")
 	}
-	pop := c.fn("scanner", "Stack.Pop")
-	push := c.fn("scanner", "Stack.Push")
-	if pop != nil && push != nil {
-		lifo := false
-		ast.Inspect(pop.Decl.Body, func(nd ast.Node) bool {
-			if ix, ok := nd.(*ast.IndexExpr); ok {
-				if be, ok := ast.Unparen(ix.Index).(*ast.BinaryExpr); ok && be.Op == token.SUB {
-					if k, ok := constInt(pop.Pkg, be.Y); ok && k == 1 {
-						lifo = true
-					}
-				}
-			}
-			return true
-		})
-		if lifo {
-			r.Ok("C09-SCANNER-ISOLATION", "LIFO", "Pop returns element len-1 of the slice Push appends to", c.pos(pop.Decl.Pos()))
-		} else {
-			r.Bad("C09-SCANNER-ISOLATION", "LIFO", "Pop does not take the last pushed scanner", c.pos(pop.Decl.Pos()))
+	if pop := c.fn("scanner", "Stack.Pop"); pop != nil {
+		sf := c.stackFacts()
+		switch {
+		case sf.err != "":
+			r.Undecided("C09-SCANNER-ISOLATION", "LIFO", sf.err, c.pos(pop.Decl.Pos()))
+		case sf.popLIFO != "" || sf.popShrinks != "":
+			r.Bad("C09-SCANNER-ISOLATION", "LIFO", "Pop does not take the last pushed scanner: "+sf.popLIFO+" "+sf.popShrinks, c.pos(pop.Decl.Pos()))
+		default:
+			r.Ok("C09-SCANNER-ISOLATION", "LIFO", "Pop returns the scanner of element len-1 of the slice Push appends to, and cuts that element off (abstract evaluation, terms compared)", c.pos(pop.Decl.Pos()))
 		}
 	}
 }
